@@ -716,6 +716,14 @@ func (ex *Exec) invEnv(st *State, fr *Frame, hdr *ssa.BasicBlock, phiVals map[ss
 			env.vars[phi.Comment] = CV{T: phiVals[phi], GoT: phi.Type()}
 		}
 	}
+	// loop variables the invariants name by the name they had when the contract was written
+	for old, now := range ex.localAlias {
+		if v, ok := env.vars[now]; ok {
+			if _, have := env.vars[old]; !have {
+				env.vars[old] = v
+			}
+		}
+	}
 	return env
 }
 
